@@ -10,6 +10,7 @@ import ZCV.Spec.Tree
 import ZCV.Model.TreeLoad
 import ZCV.Model.Url
 import ZCV.Spec.Url
+import ZCV.Model.Resources
 /-! Line-protocol driver: one request per line, one answer per line. Imports Spec + Model + Gen only. -/
 open ZCV ZCV.SExp ZCV.Codec ZCV.Cfg
 
@@ -62,6 +63,25 @@ def encConv : Except ConvErr Val → SExp
   | .error .typeError => .list [.atom "err", .atom "TypeError"]
   | .error (.other n) => .list [.atom "err", .str n]
 
+partial def decSteps : List SExp → Option (List Res.Step)
+  | [] => some []
+  | .atom "work" :: r => (decSteps r).map (Res.Step.work :: ·)
+  | .list [.atom "sub", id, .list ss] :: r => do
+    let i ← getNat? id
+    let sub ← decSteps ss
+    let rest ← decSteps r
+    pure (Res.Step.sub i sub :: rest)
+  | _ => none
+def decPt : SExp → Option Res.Pt
+  | .list [.atom "urlopen", r] => (getNat? r).map .urlopen
+  | .list [.atom "read", r] => (getNat? r).map .read
+  | .list [.atom "decode", r] => (getNat? r).map .decode
+  | .list [.atom "step", r, k] => do let a ← getNat? r; let b ← getNat? k; pure (.step a b)
+  | _ => none
+def encResEv : Res.Ev → SExp
+  | .sopen r => .list [.atom "sopen", ofNat r] | .sclose r => .list [.atom "sclose", ofNat r]
+  | .ropen r => .list [.atom "ropen", ofNat r] | .rclose r => .list [.atom "rclose", ofNat r]
+
 structure DState where
   defs : List SExp := []
   env : List SExp := []
@@ -101,6 +121,13 @@ def handle (st : DState) : SExp → DState × SExp
           | some v => .list [.atom "accept", encVal v]
           | none => .list [.atom "reject"]
       | _, _, _, _ => .list [.atom "bad-request", .atom "loadspec"])
+  -- (resrun (faults…) id (steps…)) → (ok? wb? (events…))
+  | .list [.atom "resrun", .list fs, id, .list steps] =>
+    (st, match fs.mapM decPt, getNat? id, decSteps steps with
+      | some pts, some i, some ss =>
+        let r := Res.runRes (fun p => pts.contains p) i ss
+        .list [ofBool r.2, ofBool (Res.wb r.1 []), .list (r.1.map encResEv)]
+      | _, _, _ => .atom "bad-request")
   -- (url "s") → (isPath-model isPath-spec "urlnormalize" normalForm-of-result)
   | .list [.atom "url", .str u] =>
     (st, .list [ofBool (Url.isPath u), ofBool (UrlSpec.isPath u), .str (Url.urlnormalize u), ofBool (UrlSpec.normalForm (Url.urlnormalize u))])
